@@ -554,7 +554,7 @@ pub fn run(ctx: &Ctx) -> Outcome {
     }
   }
   // the loop half (C06: the tablet-mode reset as the loop performs it, timers included; C19: what reaches the device)
-  if matches!(id, "C06" | "C19") {
+  if matches!(id, "C06" | "C19" | "C01" | "C02" | "C05") {
     let (vs, cov, mach) = crate::props_b::loop_half(ctx, id);
     o.cov("loop_half", cov);
     for v in vs { o.violations.push(v); }
